@@ -201,6 +201,10 @@ func (n *Net) FaultFiredOn(task, op int) bool {
 	n.mu.Lock()
 	defer n.mu.Unlock()
 	for _, m := range n.msgs {
+		// (a delay of at most 3 s is benign whatever became of the answer: "it was not taken
+		// delivery of" cannot be the criterion, because that is exactly what cross-talk causes —
+		// the operation runs off with another answer and hangs up.  An implementation whose
+		// time-out is below 3 s is outside what C19, which names 5 s, describes.)
 		if m.Task == task && m.Op == op && m.Fault != "" && !m.Benign {
 			return true
 		}
@@ -474,7 +478,13 @@ func (e *end) deliver(c *chunk) {
 		if !e.closed && e.rerr == nil && !e.rfin {
 			e.rbuf = append(e.rbuf, c.data...)
 			if c.msg != nil {
-				c.msg.Delivered = true
+				if n := e.p.net(); n != nil {
+					n.mu.Lock()
+					c.msg.Delivered = true
+					n.mu.Unlock()
+				} else {
+					c.msg.Delivered = true
+				}
 			}
 		}
 	}
